@@ -5,11 +5,7 @@ import json, os
 CLAIMED = {
     # id: (level category, text, note, technique, design_ref)
 }
-NOT_APPLICABLE = {
-    'C10': 'numerical correctness of the LP back-end (minilp simplex over f64, tolerances) is not visible in the shape of '
-           'this repository\'s code; no sound static argument in reach bounds it (an exact LP referee is a different technique family). '
-           'Its in-repo necessary conditions (LP encoding, status mapping, consumers\' tables) are decided under C03/C11/C15.',
-}
+NOT_APPLICABLE = {}
 
 def load_claims():
     import importlib, sys
